@@ -130,6 +130,9 @@ def run(check, mirror, tier):
 
     jobs.append(lambda c: decide(c, crate, "no_panic/item_definition_type", setup_idt, lambda ex, o, i: [], replay_item_definition, rb, models=MODELS, unwind=6,
                                  describe=desc, budget_s=600, min_paths=3, timeout_ms=20000, known_predicates=KNOWN_PRED))
+    # the evaluation closure of a decision service (dangling output decision references must not panic; shared with C11's output side)
+    from checks import C11_output
+    C11_output.jobs_for(check, mirror, rb, crate, fv.Universe(mirror), jobs, tier, KNOWN_PRED)
     run_parallel(check, jobs)
 
 
